@@ -1,3 +1,4 @@
+import Fzf.Lemmas.FilterOnce
 import Fzf.Lemmas.Rank
 import Fzf.Lemmas.Merger
 import Fzf.Generated.Consts
@@ -150,5 +151,13 @@ example : passGet 3 [[7, 8], [9, 10, 11], [12, 13, 14], [15]] false 5 = some 12 
 example : WF ⟨[65535, 0, 7, 65499], 3⟩ := by simp [WF]
 example : compareRanks64 ⟨[0, 0, 1, 65499], 1⟩ ⟨[0, 0, 4, 65499], 2⟩ true = true := by decide
 example : sliceChunks 3 [0, 1, 2, 3, 4, 5, 6] = [[0, 1], [2, 3], [4, 5, 6]] := by decide
+
+/-- **Each line once.** Whatever the query, the tiebreak criteria, --tac / --no-sort / --tail and
+    the behaviour of the match functions: `fzf --filter` never prints an input record twice (the
+    item numbers of its output are pairwise distinct). Together with `C07_filter_prints_originals`
+    (every printed record is an input record) the output is a selection of the input lines. -/
+theorem C04_each_line_once (o : Filter.Opts) (slabCap : Nat) (query : Str) (lines : List Str)
+    (out : List (Nat × Str)) (h : Filter.runIdx o slabCap query lines = some out) : (out.map (·.1)).Nodup :=
+  Filter.runIdx_nodup o slabCap query lines out h
 
 end Fzf.Props.C04
